@@ -25,6 +25,7 @@ By convention, the folder "web" in the get_store() holds web interface and can b
 
 """
 import os
+import threading
 from os import makedirs, name, remove
 from pathlib import Path
 import json
@@ -486,6 +487,8 @@ class FileStore(Store):
     def _write_file(self, path, tmp_path, data):
         """Write a file via a temporary file (kept in the metadata folder) and a rename,
         so that a crash leaves either the previous content or the complete new one."""
+        # a temporary name of its own for every writer: concurrent writers of one key must not share it
+        tmp_path = f"{tmp_path}.{os.getpid()}.{threading.get_ident()}"
         with open(tmp_path, "wb") as f:
             f.write(data)
         os.replace(tmp_path, path)
